@@ -73,7 +73,7 @@ def run(prop, tier):
   known = load_known()
   ctx = multiprocessing.get_context('fork')
   with ctx.Pool(min(16, max(1, len(mine)))) as pool:
-    ded_async = pool.map_async(_verify, [u['name'] for u in mine])
+    ded_async = pool.map_async(_verify, [u['name'] for u in mine if u.get('deductive', True)])
     nat_async = pool.map_async(_native, [(u['name'], tier) for u in mine if u.get('native')])
     ded = ded_async.get()
     nat = {r['unit']: r for r in nat_async.get()}
